@@ -5,11 +5,12 @@ package c11
 // generator keeps a light "world" of objects it has created so that most messages are valid.
 
 import (
-	"os"
 	"crypto/sha256"
 	"encoding/hex"
 	"encoding/json"
 	"fmt"
+	"math"
+	"os"
 	"sort"
 	"strconv"
 	"strings"
@@ -138,8 +139,8 @@ type world struct {
 	msgFail    map[string]int
 	// counters of the rarer shapes (classes shared by the C11/C12/C13 machines)
 	htltCreated, htltClaimed, oracleRandom, seedProviders, timePromoBindings int
-	discardedAfterExec, historyShortened, foreignProviders                     int
-	autoPaused, foreignPriced, priceCalls                                      int
+	discardedAfterExec, historyShortened, foreignProviders                   int
+	autoPaused, foreignPriced, priceCalls, hugePrices, farRandom             int
 }
 
 // shapeClasses names the rarer shapes this history contained (accepted transactions only).
@@ -161,6 +162,8 @@ func (w *world) shapeClasses() []string {
 	add(w.autoPaused > 0, "context-paused-by-end-blocker")
 	add(w.foreignPriced > 0, "binding-priced-through-exchange-rate")
 	add(w.priceCalls > 0, "oracle-price-call-ok")
+	add(w.hugePrices > 0, "binding-price>=2^63")
+	add(w.farRandom > 0, "random-request-due-beyond-2^31")
 	return cl
 }
 
@@ -388,7 +391,12 @@ func (h *hist) nextTx(t *rapid.T) (txSpec, bool) {
 			return txSpec{u, h.enc(&randomtypes.MsgRequestRandom{BlockInterval: uint64(rapid.IntRange(0, 4).Draw(t, "interval")), Consumer: me, Oracle: true,
 				ServiceFeeCap: coins("stake", int64(rapid.SampledFrom([]int{10, 10, 2, 1}).Draw(t, "seedcap")))})}, true
 		}
-		return txSpec{u, h.enc(&randomtypes.MsgRequestRandom{BlockInterval: uint64(rapid.IntRange(0, 6).Draw(t, "interval")), Consumer: me})}, true
+		interval := uint64(rapid.IntRange(0, 6).Draw(t, "interval"))
+		if rapid.IntRange(0, 9).Draw(t, "farinterval") == 0 {
+			// due beyond the 32-bit range: stays pending for the whole history (and is part of every export)
+			interval = rapid.SampledFrom([]uint64{1 << 31, 3_000_000_000, 1 << 40, 1<<62 - 1}).Draw(t, "far")
+		}
+		return txSpec{u, h.enc(&randomtypes.MsgRequestRandom{BlockInterval: interval, Consumer: me})}, true
 	case "nft":
 		switch a := rapid.IntRange(0, 5).Draw(t, "nftop"); {
 		case a == 0 || len(w.nftDenoms) == 0:
@@ -688,6 +696,11 @@ func (h *hist) nextTx(t *rapid.T) (txSpec, bool) {
 				}
 			}
 			pricing := fmt.Sprintf(`{"price":"%d%s"`, price, pdenom)
+			hugePrice := pdenom == "stake" && rapid.IntRange(0, 11).Draw(t, "hugeprice") == 0
+			if hugePrice {
+				// nine units of an 18-decimals coin per call: more than a signed 64-bit integer holds
+				pricing = fmt.Sprintf(`{"price":"%sstake"`, rapid.SampledFrom([]string{"9223372036854775808", "18446744073709551616", "9223372036854775807"}).Draw(t, "hugep"))
+			}
 			if rapid.IntRange(0, 2).Draw(t, "timepromo") == 0 {
 				// a promotion by time that is in force now, about to start, or about to end (blocks advance 1-8 s, sometimes minutes)
 				now := ctx.BlockTime().Unix()
@@ -710,6 +723,9 @@ func (h *hist) nextTx(t *rapid.T) (txSpec, bool) {
 				// the minimum deposit is the converted price times the deposit multiple; feed values go up to 5000
 				deposit = coins("stake", 1_000_000_000_000)
 			}
+			if hugePrice {
+				deposit = sdk.NewCoins(sdk.NewCoin("stake", sdkmath.NewIntWithDecimal(1, 24)))
+			}
 			return txSpec{u, h.enc(&servicetypes.MsgBindService{ServiceName: svc, Provider: prov, Deposit: deposit, Pricing: pricing, QoS: uint64(rapid.IntRange(1, 3).Draw(t, "qos")), Options: "{}", Owner: me})}, true
 		case a <= 4:
 			b := pick(t, "binding", w.bindings)
@@ -721,7 +737,11 @@ func (h *hist) nextTx(t *rapid.T) (txSpec, bool) {
 			}
 			sort.Strings(provs)
 			rep := rapid.Bool().Draw(t, "repeated")
-			msg := &servicetypes.MsgCallService{ServiceName: b.Svc, Providers: provs, Consumer: me, Input: hInput, ServiceFeeCap: coins("stake", int64(rapid.SampledFrom([]int{50, 50, 1000}).Draw(t, "cap"))), Timeout: int64(rapid.SampledFrom([]int{1, 2, 3, 4, 5, 6, 6, 9, 12}).Draw(t, "timeout"))}
+			feeCap := coins("stake", int64(rapid.SampledFrom([]int{50, 50, 1000}).Draw(t, "cap")))
+			if b.Price == math.MaxInt64 {
+				feeCap = sdk.NewCoins(sdk.NewCoin("stake", sdkmath.NewIntWithDecimal(1, 21)))
+			}
+			msg := &servicetypes.MsgCallService{ServiceName: b.Svc, Providers: provs, Consumer: me, Input: hInput, ServiceFeeCap: feeCap, Timeout: int64(rapid.SampledFrom([]int{1, 2, 3, 4, 5, 6, 6, 9, 12}).Draw(t, "timeout"))}
 			if rep {
 				msg.Repeated, msg.RepeatedFrequency, msg.RepeatedTotal = true, uint64(msg.Timeout)+uint64(rapid.IntRange(0, 4).Draw(t, "freq")), int64(rapid.IntRange(1, 5).Draw(t, "total"))
 			}
@@ -914,7 +934,7 @@ func (h *hist) observe(op blockOp, resp *abci.ResponseFinalizeBlock) {
 			continue
 		}
 		if tx.User >= h.rich && len(msgs) >= 2 {
-			if c, ok := msgs[0].(*servicetypes.MsgCallService); ok && c.ServiceFeeCap.AmountOf("stake").Int64() >= 1000 {
+			if c, ok := msgs[0].(*servicetypes.MsgCallService); ok && c.ServiceFeeCap.AmountOf("stake").GTE(sdkmath.NewInt(1000)) {
 				w.contention++
 			}
 		}
@@ -957,7 +977,10 @@ func (h *hist) observe(op blockOp, resp *abci.ResponseFinalizeBlock) {
 				w.svcs = append(w.svcs, x.Name)
 			case *servicetypes.MsgBindService:
 				var price int64
-				fmt.Sscanf(x.Pricing, `{"price":"%dstake`, &price)
+				if n, _ := fmt.Sscanf(x.Pricing, `{"price":"%dstake`, &price); n == 0 && strings.HasPrefix(x.Pricing, `{"price":"9`) || strings.HasPrefix(x.Pricing, `{"price":"18446`) {
+					price = math.MaxInt64 // beyond what the generator's small integers hold: callers offer a matching cap
+					w.hugePrices++
+				}
 				if x.ServiceName != randomtypes.ServiceName {
 					prov := userIndex(h.n, x.Provider)
 					if prov < 0 {
@@ -992,6 +1015,9 @@ func (h *hist) observe(op blockOp, resp *abci.ResponseFinalizeBlock) {
 			case *randomtypes.MsgRequestRandom:
 				if x.Oracle {
 					w.oracleRandom++
+				}
+				if x.BlockInterval >= 1<<31 {
+					w.farRandom++
 				}
 			case *htlctypes.MsgClaimHTLC:
 				if strings.Contains(fmt.Sprint(attrs(res.Events, "claim_htlc", "transfer")), "true") {
